@@ -201,6 +201,43 @@ def primitives(chk, prog):
     chk.floor("primitive IntoJson impls", n, 10)
 
 
+def _int_range(ty):
+    m = re.match(r"^([iu])(8|16|32|64|128|size)$", ty)
+    if not m:
+        return None
+    bits = 64 if m.group(2) == "size" else int(m.group(2))
+    return (-(1 << (bits - 1)), (1 << (bits - 1)) - 1) if m.group(1) == "i" else (0, (1 << bits) - 1)
+
+
+def number_casts(chk, prog):
+    """R1: `FromJson for T` (T an integer type) converts the number to T itself: every float-to-integer cast in the impl targets T or a type
+    whose range contains T's.  A detour through a narrower type — an integrality test written as `(n as i64) as f64 == n` in the impl for
+    u64 / u128 / i128 — saturates outside that type, so values T can hold (and `IntoJson for T` writes) are refused or changed."""
+    n = 0
+    for ty in NUMERIC:
+        want = _int_range(ty)
+        if want is None:
+            continue
+        p = f"<{ty} as humphrey_json::traits::FromJson>::from_json"
+        fam = [prog.bodies[q] for q in prog.bodies if q == p or q.startswith(p + "::{closure")]
+        if not fam:
+            continue
+        n += 1
+        bad = []
+        for b in fam:
+            for bi, blk in enumerate(b.blocks):
+                for st in blk["stmts"]:
+                    rv = st.get("rv")
+                    if rv and rv.get("k") == "cast" and "FloatToInt" in str(rv.get("ck")):
+                        got = _int_range(str(rv.get("ty")))
+                        if got is None or got[0] > want[0] or got[1] < want[1]:
+                            bad.append((rv.get("ty"), b.where(bi)))
+        chk.ob("R1.number_casts", p, f"the number is converted to {ty} directly (no cast through a narrower integer type)", not bad,
+               f"FromJson for {ty} casts the f64 to {sorted(set(x[0] for x in bad))}: the cast saturates outside that type, so part of {ty}'s range is refused or altered "
+               f"(e.g. {ty}::MAX written by IntoJson does not read back)", where=bad[0][1] if bad else "")
+    chk.floor("integer FromJson impls", n, 12)
+
+
 def run(chk):
     prog = chk.use(core.load("A", fresh=(chk.tier == "thorough")))
     chk.explanation = (
@@ -214,6 +251,7 @@ def run(chk):
     chk.assumptions = ["rustc macro expansion / type checking", "the corpus generator's expected shapes (hv/props/c14_corpus.py) are derived from the literal it prints"]
     macro_rules(chk, prog)
     primitives(chk, prog)
+    number_casts(chk, prog)
     option_vec(chk, prog)
     c14_corpus.support_helpers(prog)
     chk.extra["support_helpers"] = dict(c14_corpus.SUPPORT)
